@@ -88,3 +88,16 @@ Theorem C12_translated_SEAWithAdaptiveMutation_run {G} (gdef : G) mx k_elites pi
   pf (gen_SEAWithAdaptiveMutation_run gdef mx k_elites pipeline parents o1 o2) = sea_select mx k_elites (pf parents) (pf (pipeline parents)) o1 o2.
 Proof. exact (SEAWithAdaptiveMutation_run_fits gdef mx k_elites pipeline parents o1 o2). Qed.
 Print Assumptions C12_translated_SEAWithAdaptiveMutation_run.
+
+(* TournamentSelection (translated numpy code; the draw of the tournaments is an oracle): the selected population has one row per tournament
+   (constant size), every row is a row of the population it was given, and a tournament of two is won by its first best entry in the
+   problem's direction *)
+Theorem C12_translated_tournament {G} (gdef : G) mx (p : pop (G:=G)) tour : aligned p ->
+  rows_of (gen_TournamentSelection_call gdef mx p tour) = map (fun i => nth i (rows_of p) (gdef, 0%Z)) (tour_winners mx (pf p) tour) /\
+  length (pf (gen_TournamentSelection_call gdef mx p tour)) = length tour.
+Proof. intros A. exact (conj (tournament_rows gdef mx p tour A) (tournament_size gdef mx p tour)). Qed.
+Print Assumptions C12_translated_tournament.
+Theorem C12_translated_tournament_pair mx fs j0 j1 :
+  nth (first_arg mx (take_idx 0%Z fs [j0; j1])) [j0; j1] O = nth (tournament_pick mx (nth j0 fs 0%Z) (nth j1 fs 0%Z)) [j0; j1] O.
+Proof. exact (tournament_pair mx fs j0 j1). Qed.
+Print Assumptions C12_translated_tournament_pair.
